@@ -82,6 +82,18 @@ def run(check, repo: Repo) -> None:
     _, fv = repo.cls(f"{VEC}:_FieldView")
     vmod = repo.module(VAL)
     methods = {d.name: d for d in vcls.body if isinstance(d, ast.FunctionDef)}
+    # a field handle is a VIEW: it keeps the vector and the field, never a snapshot of the cells.  Anything assigned in _FieldView.__init__ that is derived from
+    # `vector._data` is frozen at construction and goes stale as soon as a cell array is replaced (cell / slice assignment, set_data, add_fields, remove_fields):
+    # `fx = v['x']; v[0] = new_cell; fx.flatten()` then reads detached arrays.
+    fv_init = next((f_ for f_ in fv.body if isinstance(f_, ast.FunctionDef) and f_.name == "__init__"), None)
+    if fv_init is None:
+        raise AnalysisError("_FieldView.__init__ not found")
+    for st_ in walk_no_nested_defs(fv_init):
+        if isinstance(st_, ast.Assign) and any(isinstance(t_, ast.Attribute) and dotted(t_.value) == "self" for t_ in st_.targets):
+            reads_cells = any(isinstance(x, ast.Attribute) and x.attr == "_data" for x in ast.walk(st_.value))
+            check.decide(not reads_cells, "C11-R4", f"_FieldView.__init__: `{unparse(st_.targets[0])}` is not a snapshot of the cells", unparse(st_)[:60], mod.line(st_), definite=True,
+                         fail_detail=f"`{unparse(st_)[:70]}` caches something computed from vector._data at construction: a handle obtained before a cell array is replaced keeps "
+                                     f"operating on the old arrays — flatten() is no longer the column over the current cells, in-place operators silently do nothing to the vector")
     check.analysed(*(f"{VEC}:Vector.{m}" for m in sorted(set(methods))), f"{VEC}:_FieldView.*",
                    f"{VAL}:validate_vector_data", f"{VAL}:validate_vector_data_for_inference",
                    f"{VAL}:validate_fields", f"{VAL}:validate_vector_units")
@@ -512,3 +524,4 @@ MANIFEST = {
 MANIFEST["text"] += " Also: in slicing/fancy selection the stored value is the source cell reached by walking self._data (provenance), never an element of an accessor's return value (R8)."
 MANIFEST["text"] += ' An explicit raise reachable from the schema store with no restoring store in between is a CFG fact and is reported as definite.'
 MANIFEST["text"] += " R8 also: cells are enumerated row-major over the index arrays — np.meshgrid without indexing='ij' exchanges the first two axes (recogniser self-tested on an embedded positive example each run)."
+MANIFEST["text"] += " R4 also: _FieldView.__init__ assigns nothing derived from vector._data (a field handle is a view, not a snapshot of the cells)."
